@@ -173,3 +173,90 @@ Theorem parse_no_scheme_no_panic input :
 Proof. intros H. unfold parse_url. rewrite H. reflexivity. Qed.
 
 End NoPanic.
+
+(* ---------- the authority states: parse_userinfo's `next_utf8().unwrap()` and parse_host_and_port ---------- *)
+(* number of characters the skipping iterator yields *)
+Fixpoint ntnl (l : list N) : N :=
+  match l with [] => 0 | c :: r => if is_tnl c then ntnl r else 1 + ntnl r end.
+
+(* the first pass returns a count that the second pass can consume *)
+Lemma scan_last_at_count special l : forall count last n rem,
+  scan_last_at special l count last = Some (n, rem) ->
+  last = Some (n, rem) \/ (count <= n /\ n - count < ntnl l).
+Proof.
+  induction l as [|c r IH]; intros count last n rem H; cbn [scan_last_at ntnl] in *.
+  - left. exact H.
+  - destruct (is_tnl c).
+    + destruct (IH _ _ _ _ H) as [G|G]; [left; exact G | right; exact G].
+    + destruct (c =? 64).
+      * destruct (IH _ _ _ _ H) as [G|G].
+        -- inversion G; subst. right. lia.
+        -- right. lia.
+      * destruct ((c =? 47) || (c =? 63) || (c =? 35) || (c =? 92) && special).
+        -- left. exact H.
+        -- destruct (IH _ _ _ _ H) as [G|G]; [left; exact G | right; lia].
+Qed.
+
+Lemma userinfo_loop_no_panic l : forall n ser uend hpw hun, n <= ntnl l ->
+  userinfo_loop l n ser uend hpw hun <> PPanic.
+Proof.
+  induction l as [|c r IH]; intros n ser uend hpw hun Hn.
+  - cbn [ntnl] in Hn. assert (n = 0) as -> by lia. cbn. discriminate.
+  - cbn [userinfo_loop]. destruct (n =? 0) eqn:E0; [discriminate|].
+    cbn [ntnl] in Hn. destruct (is_tnl c); [apply IH; exact Hn|].
+    assert (n - 1 <= ntnl r) as Hn' by lia.
+    destruct ((c =? 58) && match uend with None => true | Some _ => false end).
+    + unfold to_u32. destruct (nlen ser <=? U32_MAX_P); cbn [pbind]; [|discriminate].
+      destruct (0 <? n - 1); apply IH; exact Hn'.
+    + apply IH. exact Hn'.
+Qed.
+
+Theorem parse_userinfo_no_panic st ser l : parse_userinfo st ser l <> PPanic.
+Proof.
+  unfold parse_userinfo. destruct (scan_last_at (st_is_special st) l 0 None) as [[n rem]|] eqn:Es.
+  - destruct n as [|p].
+    + destruct (inp_next rem) as [[c r]|]; [|discriminate].
+      destruct ((c =? 47) || (c =? 63) || (c =? 35) || st_is_special st && (c =? 92)); [discriminate|].
+      unfold to_u32. destruct (nlen ser <=? U32_MAX_P); cbn [pbind]; discriminate.
+    + destruct (scan_last_at_count _ _ _ _ _ _ Es) as [G|[_ G]]; [discriminate|].
+      pose proof (userinfo_loop_no_panic l (N.pos p) ser None false false ltac:(lia)) as Hu.
+      destruct (userinfo_loop l (N.pos p) ser None false false) as [[[[ser1 uend] hpw] hun]| |]; cbn [pbind];
+        [|discriminate|congruence].
+      destruct uend as [i|]; cbn [pbind]; [discriminate|].
+      unfold to_u32. destruct (nlen ser1 <=? U32_MAX_P); cbn [pbind]; discriminate.
+  - unfold to_u32. destruct (nlen ser <=? U32_MAX_P); cbn [pbind]; discriminate.
+Qed.
+
+Lemma parse_port_loop_no_panic ctx l : forall port any, parse_port_loop ctx l port any <> PPanic.
+Proof.
+  induction l as [|c r IH]; intros port any; cbn [parse_port_loop]; [discriminate|].
+  destruct (is_tnl c); [apply IH|]. destruct (is_digit c).
+  - destruct (65535 <? port * 10 + (c - 48)); [discriminate | apply IH].
+  - destruct (ctx_eqb ctx CUrlParser && negb (is_path_end c)); discriminate.
+Qed.
+
+Section HostPort.
+Variable hp hpo : list N -> result host.
+Variable hd : host -> list N.
+
+Theorem parse_host_and_port_no_panic ctx st se ser l :
+  parse_host_and_port hp hpo hd ctx st se ser l <> PPanic.
+Proof.
+  unfold parse_host_and_port.
+  assert (parse_host hp hpo st l <> PPanic) as Hh.
+  { unfold parse_host. destruct (st_is_file st).
+    - unfold get_file_host. destruct (file_host l) as [h rem]. destruct (hp h); cbn; discriminate.
+    - destruct (host_scan (st_is_special st) false [] l) as [h rem].
+      destruct (scheme_type_eqb st STSpecialNotFile && match h with [] => true | _ => false end); [discriminate|].
+      destruct (negb (st_is_special st)); [destruct (hpo h) | destruct (hp h)]; cbn; discriminate. }
+  destruct (parse_host hp hpo st l) as [[host remaining]| |]; cbn [pbind]; [|discriminate|congruence].
+  unfold to_u32. destruct (nlen (ser ++ hd host) <=? U32_MAX_P); cbn [pbind]; [|discriminate].
+  match goal with |- pbind ?x _ <> _ => destruct x as [[]| |] eqn:Ex end; cbn [pbind]; try discriminate.
+  - destruct (inp_split_prefix_char 58 remaining) as [rem|]; [|discriminate].
+    unfold parse_port. pose proof (parse_port_loop_no_panic ctx rem 0 false) as Hp.
+    destruct (parse_port_loop ctx rem 0 false) as [[[p any] rem2]| |]; cbn [pbind]; [|discriminate|congruence].
+    destruct (negb any && ctx_eqb ctx CSetter && negb (inp_is_empty rem2)); cbn [pbind]; discriminate.
+  - exfalso. destruct host as [[|d0 d]| |]; try discriminate Ex.
+    destruct (inp_starts_with_char 58 remaining); [discriminate Ex|]. destruct (st_is_special st); discriminate Ex.
+Qed.
+End HostPort.
